@@ -15,7 +15,9 @@ RULE = ('stimulus = (construction script over <= 8 blocks mixing object / name /
         'by name or a shortcut')
 INVALID = ['unknown_name', 'foreign_block', 'event_to_cblock', 'filter_wrong_kind', 'not_unconnected',
            'not_two_inputs', 'override_group', 'override_empty_group', 'func_mismatch', 'duplicate_name', 'bad_shortcut',
-           'connect_twice', 'unknown_event_dest', 'reserved_name', 'unknown_event_dest_ignored']
+           'connect_twice', 'unknown_event_dest', 'reserved_name', 'unknown_event_dest_ignored',
+           # the same name referenced before by something that accepts any kind of block
+           'event_to_cblock_after_ref', 'filter_wrong_kind_after_ref']
 
 
 def models(tier, seed):
@@ -164,6 +166,15 @@ def execute(stim):
         # ---- injected invalid item ----
         if inv == 'unknown_name':
             edzed.And('bad').connect(name(1), 'nosuchblock')
+        elif inv == 'event_to_cblock_after_ref':
+            edzed.Or('cdest').connect(name(1))
+            edzed.IfOutput('cdest')
+            events.append(edzed.Event('cdest', 'put'))
+        elif inv == 'filter_wrong_kind_after_ref':
+            edzed.Or('cdest').connect(name(1))
+            edzed.DataEdit.add_output('x', 'cdest')
+            cls = getattr(edzed, 'IfNotIitialized', None) or getattr(edzed, 'NotIfInitialized')
+            cls('cdest')
         elif inv == 'event_to_cblock':
             edzed.Or('cdest').connect(name(1))
             blks[1]._output_events += (edzed.Event('cdest', 'put'),) if False else ()
